@@ -124,3 +124,18 @@ package meta_leaseset
 //@     assert(!ex)
 //@   }
 //@ }
+
+// C03 / C02 (framing of the tail): the trailing signature of an accepted
+// MetaLeaseSet has the size of the key that signs - the transient key's type
+// with offline keys, else the destination's signing type.
+//@ import i2pd "github.com/go-i2p/common/data"
+//@ lemma C03_C02_MetaTrailingSignature(data []byte) {
+//@   mls, _, err := ReadMetaLeaseSet(data)
+//@   if err == nil {
+//@     if mls.offlineSignature != nil {
+//@       assert(len(sig.SigData(mls.signature)) == i2pd.SpecSigLen(offline_signature.OffTransientType(mls.offlineSignature)))
+//@     } else {
+//@       assert(len(sig.SigData(mls.signature)) == i2pd.SpecSigLen(key_certificate.SigType(mls.destination.KeysAndCert.KeyCertificate)))
+//@     }
+//@   }
+//@ }
